@@ -40,9 +40,19 @@ def check(d):
             meta["applies"] = False; meta["apply_out"] = out[-300:]
             print(os.path.basename(d), "PATCH DOES NOT APPLY"); return
         meta["applies"] = True
-        rc, out = sh("go build ./...", cwd=wt); meta["builds"] = rc == 0
+        if not os.environ.get("REF_AUTO"):  # partial re-check: the checks' own loader type-checks what they analyse
+            rc, out = sh("go build ./...", cwd=wt); meta["builds"] = rc == 0
         ids = [c["property_id"] for c in json.load(open(V + "/MANIFEST.json"))["checks"]]
-        if os.environ.get("REF_PROPS"):  # re-check only the checks that changed; the other verdicts of the last full run stand
+        if os.environ.get("REF_AUTO"):  # only the changed checks whose anchored packages the patch touches
+            touched = re.findall(r"^diff --git a/(\S+)", open(f"{d}/patch.diff").read(), re.M)
+            scope = {"C02": ["modeling/"], "C03": ["modeling/"], "C07": ["formats/stl"], "C08": ["formats/ply"], "C09": ["modeling/marching", "math/sdf"],
+                     "C14": ["formats/ply", "formats/stl", "formats/spz", "formats/splat", "formats/pts"], "C15": ["formats/splat", "formats/spz", "formats/ply"], "C17": ["math/", "modeling/mesh.go"],
+                     "C04": ["formats/ply", "modeling/"], "C05": ["formats/obj", "modeling/"], "C16": ["trees", "modeling/", "rendering", "math/geometry"], "C01": ["modeling/"]}
+            only = [pid for pid, pre in scope.items() if any(t.startswith(x) for t in touched for x in pre)]
+            ids = [i for i in ids if i in only]
+            res = {k: v for k, v in meta.get("false_alarms", {}).items() if k not in only}
+            meta["last_partial_recheck"] = only
+        elif os.environ.get("REF_PROPS"):  # re-check only the checks that changed; the other verdicts of the last full run stand
             only = os.environ["REF_PROPS"].split()
             ids = [i for i in ids if i in only]
             res = {k: v for k, v in meta.get("false_alarms", {}).items() if k not in only}
